@@ -112,28 +112,23 @@ func ruleUTBSyllables(p *Prog, r *Report, c utbCfg, floor int) {
 		fs = append(fs, f)
 	}
 	sort.Slice(fs, func(i, j int) bool { return fs[i].String() < fs[j].String() })
-	for _, f := range fs {
-		key := p.FnName(f)
-		r.Instance(rule, key)
-		isMark := func(in ssa.Instruction) bool {
-			call, ok := in.(*ssa.Call)
-			if !ok || call.Common().StaticCallee() != mark || len(call.Common().Args) != 3 {
-				return false
-			}
-			a := call.Common().Args
-			return derivesExtract(a[1], next, 0, map[ssa.Value]bool{}) && derivesExtract(a[2], next, 1, map[ssa.Value]bool{})
+	isNext := func(in ssa.Instruction) bool { return staticCallTo(in, next) }
+	isMarkIn := func(in ssa.Instruction) bool {
+		call, ok := in.(*ssa.Call)
+		if !ok || call.Common().StaticCallee() != mark || len(call.Common().Args) != 3 {
+			return false
 		}
-		isNext := func(in ssa.Instruction) bool { return staticCallTo(in, next) }
-		ok := true
-		why := ""
-		for _, fc := range setups[f] {
-			if started, _ := mustFollow(p, f, after(fc), isNext); !started {
-				ok, why = false, "a path from the syllable finder to the exit does not iterate over the syllables"
-			}
+		a := call.Common().Args
+		return derivesExtract(a[1], next, 0, map[ssa.Value]bool{}) && derivesExtract(a[2], next, 1, map[ssa.Value]bool{})
+	}
+	// loopOK: from the given point of g, the iteration over the syllables starts on every path, and every iteration
+	// marks its syllable before the next one is fetched or the function returns. "" when it holds.
+	loopOK := func(g *ssa.Function, from point) string {
+		if started, _ := mustFollow(p, g, from, isNext); !started {
+			return "a path from the syllable finder to the exit does not iterate over the syllables"
 		}
-		// loop tests on the start of the syllable
 		nIf := 0
-		for _, b := range f.Blocks {
+		for _, b := range g.Blocks {
 			iff := ifOf(b)
 			if iff == nil {
 				continue
@@ -143,15 +138,46 @@ func ruleUTBSyllables(p *Prog, r *Report, c utbCfg, floor int) {
 				continue
 			}
 			nIf++
-			hit, _ := reachableFrom(p, f, point{b.Succs[0], 0}, func(in ssa.Instruction) bool { return isNext(in) || isExit(in) }, isMark, nil)
+			hit, _ := reachableFrom(p, g, point{b.Succs[0], 0}, func(in ssa.Instruction) bool { return isNext(in) || isExit(in) }, isMarkIn, nil)
 			if hit != nil {
-				ok, why = false, fmt.Sprintf("an iteration reaches %s without %s(start, end) on the syllable", p.IPos(hit), c.mark)
+				return fmt.Sprintf("an iteration reaches %s without %s(start, end) on the syllable", p.IPos(hit), c.mark)
 			}
 		}
-		if ok && nIf == 0 {
-			ok, why = false, "no loop over the syllables"
+		if nIf == 0 {
+			return "no loop over the syllables"
 		}
-		r.Check(ok, rule, key, p.Pos(f.Pos()), fmt.Sprintf("after finding the syllables every one of them is flagged whole by %s(start, end): the glyphs of a syllable are reordered and shaped together", c.mark)+pref(why))
+		return ""
+	}
+	for _, f := range fs {
+		key := p.FnName(f)
+		r.Instance(rule, key)
+		why := ""
+		for _, fc := range setups[f] {
+			w := loopOK(f, after(fc))
+			if w != "" {
+				// the loop may live in a helper of the package called on every path after the finder
+				viaHelper := false
+				okHelper, _ := mustFollow(p, f, after(fc), func(in ssa.Instruction) bool {
+					call, isCall := in.(*ssa.Call)
+					if !isCall {
+						return false
+					}
+					g := call.Common().StaticCallee()
+					if g == nil || g.Blocks == nil || fnPkg(g) == nil || fnPkg(g).Path() != p.pkgPath(c.pkg) || g == f {
+						return false
+					}
+					if loopOK(g, entryPoint(g)) == "" {
+						viaHelper = true
+						return true
+					}
+					return false
+				})
+				if !(okHelper && viaHelper) {
+					why = w
+				}
+			}
+		}
+		r.Check(why == "", rule, key, p.Pos(f.Pos()), fmt.Sprintf("after finding the syllables every one of them is flagged whole by %s(start, end), here or in a helper called on every path: the glyphs of a syllable are reordered and shaped together", c.mark)+pref(why))
 	}
 	r.Floor(rule, len(fs), floor)
 }
@@ -337,7 +363,7 @@ func exprOf(v ssa.Value) string {
 
 func controlsC18(cp *Prog, r *Report) {
 	cfg := utbCfg{pkg: "utb", buffer: "Buffer", mark: "unsafeToBreak", iter: "syllableIterator", next: "next", info: "GlyphInfo", syllable: "syllable"}
-	expectControl(r, "R-UTB/syllables", func(cr *Report) { ruleUTBSyllables(cp, cr, cfg, 4) }, "utb.setupBadNone", "utb.setupBadSkip", "utb.setupBadRange")
+	expectControl(r, "R-UTB/syllables", func(cr *Report) { ruleUTBSyllables(cp, cr, cfg, 4) }, "utb.setupBadNone", "utb.setupBadSkip", "utb.setupBadRange", "utb.setupHelperBad")
 	expectControl(r, "R-UTB/halfopen", func(cr *Report) { ruleUTBHalfOpen(cp, cr, cfg, 2) }, "utb.puaBad/unsafeToBreak(base, i)")
 	expectControl(r, "R-UTB/cursor", func(cr *Report) {
 		fx := NewFX(cp)
